@@ -184,7 +184,7 @@ class Ctx:
             if b.startswith("Closed"):
                 self.assumptions[nm] = []
             else:
-                self.assumptions[nm] = sorted(set(re.findall(r"^([A-Za-z_][A-Za-z0-9_.']*)\s*:", b, re.M)))
+                self.assumptions[nm] = sorted(set(re.findall(r"^([A-Za-z_][A-Za-z0-9_.']*)\s*:", b, re.M)) - {"Axioms"})
         return True
 
     def forbidden_scan(self) -> list[str]:
